@@ -471,7 +471,8 @@ def count_shapes(frames, cnt):
 class C15(Prop):
     id = "C15"
     props = "C15_Props"
-    coq_files = ("Base", "C15_Model", "C15_Spec", "C15_SpecL3", "C15_Proofs", "C15_ProofsL3", "C15_ProofsL3b", "C15_Props")
+    coq_files = ("Base", "C15_Model", "C15_Spec", "C15_SpecL2", "C15_SpecL3", "C15_Proofs", "C15_ProofsL2b", "C15_ProofsL3", "C15_ProofsL3b",
+                 "C15_Props")
     models = ("C15_Model",)
     packages = {"tr": "internal/tracer"}
     kinds = {"c15.conn": "tr", "c15.fuzz": "tr"}
@@ -497,13 +498,16 @@ class C15(Prop):
                    "the inner net.Conn returns 0 <= n <= len(buf)",
                    "x/net/http2's Framer accepts/rejects frames as parse_buf says (frame.go v0.37.0 transcribed; exercised on every run, "
                    "including one malformation per frame type)")
-    level_text = ("Machine-checked proof (Coq, 23 theorems). L1: every Read/Write/Close returns exactly the inner conn's bytes, count and "
+    level_text = ("Machine-checked proof (Coq, 25 theorems). L1: every Read/Write/Close returns exactly the inner conn's bytes, count and "
                   "error from ANY tracer state; for any op list, bytes and HPACK behaviour the run exists (never_crashes: no nil "
                   "dereference reachable, stream-table invariant); every chunk the inner Reads deliver - with or without an error - and "
                   "everything handed to Write goes through the frame tracers, a Read with bytes and an error traces first and handles the "
                   "error afterwards (all_bytes_traced, read_error_after_tracing). L2: for ALL byte streams, ALL partitions into chunks and "
                   "ANY decoder, chunk by chunk = one call on the concatenation (state and frames; preface, 9-byte header, payload, header "
-                  "blocks continued in CONTINUATION frames); broken is absorbing. L3: (a) for ALL lists of decoded frames the traces a "
+                  "blocks continued in CONTINUATION frames); broken is absorbing; and against an independent one-shot spec written from RFC 9113 "
+                  "(preface, split by the 9-byte header's length field, header blocks joined, each unit through the framer, stop at the "
+                  "first rejection) the emitted frames are exactly spec_frames of the direction's byte stream, for all chunkings "
+                  "(frames_are_split_frames, chunks_are_split_frames). L3: (a) for ALL lists of decoded frames the traces a "
                   "stream completes and its final state are those of the run over its own frames and GOAWAYs (stream_independent); (b) "
                   "C15_SpecL3.exchange is a grammar of well-formed streams over decoded frames (request HEADERS, DATA*, END_STREAM on "
                   "DATA/trailers/HEADERS; response HEADERS, DATA*, END_STREAM on DATA/trailers/HEADERS; both directions interleaved; "
@@ -523,7 +527,7 @@ class C15(Prop):
                   "off (the code overwrites maxStreamID); last-stream-id 0 is stored as `no limit` by the code (quirk, recorded). Expected "
                   "messages are defined by threading the envelope parser over the DATA payloads; equality with one parse of the whole body "
                   "is C14's theorem, not re-proved for this model's dt_*. From completions to collector deliveries only the refusal/retry "
-                  "patterns are proved. L2 has no declarative split_frames spec (theorem = chunking independence of the machine). "
+                  "patterns are proved. spec_frames still uses parse_buf (the transcription of Framer.ReadFrame) for a single unit. "
                   "Trusted: Coq kernel, extraction, OCaml driver, harness, generator. HPACK decoding is an oracle (function of the "
                   "direction's header-block history); Framer.ReadFrame's structural checks are transcribed from x/net v0.37.0 and compared "
                   "on every run; compression of end-stream messages is outside the modelled fragment (identity only); strconv.Atoi signs "
